@@ -4,7 +4,7 @@
     crash injection at every file-system call of the rewrite). *)
 From Coq Require Import List ZArith NArith Bool Arith.
 Import ListNotations.
-From RV Require Import Lib.Str Model.DataFile Proofs.DataFileP.
+From RV Require Import Lib.Str Model.DataFile Proofs.DataFileP Proofs.RewriteLoadP.
 From RV Require Import Gen.GenFactsRewrite.
 
 (** Every line that is not a measurement (comments, metadata block lines, records, the header, a
@@ -28,6 +28,20 @@ Theorem C14_nothing_selected :
   forall f, rewrite (fun _ => false) f = f.
 Proof. intros. apply rewrite_nothing_selected. Qed.
 Print Assumptions C14_nothing_selected.
+
+(** What the next session finds ("the next execution regenerates precisely the removed runs"): for a file whose
+    measurement lines come in whole data points and whose records the loader accepts (executable guards, evaluated
+    on every real file by harness/c14.py) and which loads, the rewritten file loads too, with the same record
+    tables, and the data points loaded from it are exactly those of the runs that were not selected, in their
+    order - the selected runs are left with no recorded invocation, the others keep all of theirs. *)
+Theorem C14_rewrite_then_load :
+  forall sel f,
+    wffb f = true -> no_skipsb ls_init f = true -> crashed (load f) = false ->
+    crashed (load (rewrite sel f)) = false
+    /\ loaded (load (rewrite sel f)) = filter (fun dp => negb (sel (p_run dp))) (loaded (load f))
+    /\ benches (load (rewrite sel f)) = benches (load f) /\ runs (load (rewrite sel f)) = runs (load f).
+Proof. exact rewrite_then_load. Qed.
+Print Assumptions C14_rewrite_then_load.
 
 (** The rewrite as file-system steps (create the copy next to the file, write, close, rename):
     after a crash behind any number of steps the data file is the old or the new content. *)
@@ -53,5 +67,6 @@ Example C14_example :
   let d r v := {| n_run := r; n_bench := 3; n_inv := 1; n_ms := [(1, true, v)] |} in
   let f := session_lines [] [d 7 5%Z; d 8 6%Z; d 7 7%Z] in
   map (fun dp => p_run dp) (loaded (load (rewrite (Nat.eqb 7) f))) = [8]
-  /\ length f - length (rewrite (Nat.eqb 7) f) = 2.
-Proof. vm_compute. split; reflexivity. Qed.
+  /\ length f - length (rewrite (Nat.eqb 7) f) = 2
+  /\ wffb f = true /\ no_skipsb ls_init f = true /\ crashed (load f) = false.
+Proof. vm_compute. repeat split; reflexivity. Qed.
